@@ -96,6 +96,45 @@ def mk_prog(rng, prog=None, origin=None):
     return d
 
 
+def damaged_layout_pairs(ctx, exe, dump):
+    """`two programs that differ only in whitespace format to the same text` - also when the program has syntax errors: token
+    sequences of damaged programs in two random layouts (compared only when the real lexer reads the same tokens from both)"""
+    import splgen
+    rng = ctx.rng
+    pairs = []
+    for _ in range(900 if ctx.thorough() else 150):
+        prog, _ = splgen.well_typed_program(rng, ndecls=rng.randrange(1, 4))
+        sp = splgen.damage(splgen.flatten(prog), rng, k=rng.choice([1, 1, 2, 3]))
+        a = fmtlib.layout(sp, rng, None, newline=rng.choice(["\n", "\r\n"]), dense=rng.random() < 0.5)
+        b = fmtlib.layout(sp, rng, None, newline="\n", dense=False)
+        pairs.append((a, b))
+    la = fmtlib.lex_real(dump, [a for a, _ in pairs])
+    lb = fmtlib.lex_real(dump, [b for _, b in pairs])
+    same = [i for i in range(len(pairs)) if la[i] is not None and lb[i] is not None
+            and [(t["kind"], t["val"]) for t in la[i]] == [(t["kind"], t["val"]) for t in lb[i]]]
+    opts = fmtlib.option_settings()
+    jobs, tags = [], []
+    for i in same:
+        o = rng.choice(opts)
+        jobs += [(pairs[i][0], o[0], o[1]), (pairs[i][1], o[0], o[1])]
+        tags.append((i, o))
+    obs = fmtlib.format_many(exe, jobs, tag="d11")
+
+    def text_of(job, ob):
+        return job[0] if ob[0] == "null" else fmtlib.apply_edit(job[0], ob[1], ob[2]) if ob[0] == "edit" else None
+    fails = []
+    for k, (i, o) in enumerate(tags):
+        ta, tb = text_of(jobs[2 * k], obs[2 * k]), text_of(jobs[2 * k + 1], obs[2 * k + 1])
+        if ta is not None and tb is not None and ta != tb:
+            fails.append(dict(layout_a=pairs[i][0], layout_b=pairs[i][1], formatted_a=ta, formatted_b=tb, insert_spaces=o[0], tab_size=o[1]))
+    confirmed = []
+    for f in sorted(fails, key=lambda f: len(f["layout_a"]))[:3]:
+        again = fmtlib.format_many(exe, [(f["layout_a"], f["insert_spaces"], f["tab_size"]), (f["layout_b"], f["insert_spaces"], f["tab_size"])], tag="d11c")
+        if text_of((f["layout_a"],), again[0]) != text_of((f["layout_b"],), again[1]):
+            confirmed.append(f)
+    return confirmed, dict(pairs=len(pairs), same_tokens_in_both_layouts=len(same), deviations=len(fails))
+
+
 SEQUENCES = [[(True, 4), (False, 4), (True, 4)], [(False, 2), (True, 2), (False, 2)], [(True, 0), (False, 0)],
              [(True, 8), (True, 8), (False, 8), (True, 3)]]
 
@@ -152,6 +191,10 @@ def run(ctx):
     # history independence: the answer is a function of (text, options) alone - the same document asked with different
     # option settings in a row, in ONE server process, must get what the model computes for each request
     hist_fail = history_independence(ctx, exe, judge, progs)
+    dl_fail, dl_cov = damaged_layout_pairs(ctx, exe, dump)
+    for f in dl_fail[:2]:
+        ctx.violation(dict(kind="damaged-layouts", property="C11", what="two layouts of the same (damaged) token sequence format differently", **f))
+    ctx.cov["damaged_layout_pairs"] = dl_cov
     shown = 0
     seen = set()
     for f in sorted(fails, key=lambda f: len(progs[f["prog"]]["text"])):
@@ -257,8 +300,20 @@ VALIDATED = ("Idempotence is proved for EVERY valid program with comments in any
              "(depth from the generator's derivation), canonical output for two layouts and null-iff-unchanged.")
 
 
+def replay_damaged(ctx, r):
+    env = fmtlib.setup(ctx)
+    exe, judge, dump = env
+    obs = fmtlib.format_many(exe, [(r["layout_a"], r["insert_spaces"], r["tab_size"]), (r["layout_b"], r["insert_spaces"], r["tab_size"])], tag="rd")
+    outs = [(t if ob[0] == "null" else fmtlib.apply_edit(t, ob[1], ob[2]) if ob[0] == "edit" else None) for t, ob in zip((r["layout_a"], r["layout_b"]), obs)]
+    print(repr(outs[0]))
+    print(repr(outs[1]))
+    return 0 if outs[0] == outs[1] else 1
+
+
 def replay(ctx, path):
     r = json.load(open(path))
+    if r.get("kind") == "damaged-layouts":
+        return replay_damaged(ctx, r)
     if "program" not in r:
         print(json.dumps(r, indent=1)[:3000])
         return 1
